@@ -14,18 +14,25 @@ TECHNIQUE = ("Coq proof: the hook registration state machine (handles, ordered h
              "model tied to the code by differential correspondence against the real classes (with real gc.collect())")
 LEVEL_TEXT = ("Machine-checked proof (Coq): for EVERY sequence of construct / register / deregister / train-eval switches / "
               "trainexec-evalexec assignments / module calls (incl. failing forward) / manual StateHook calls (force, ignore_mode) "
-              "/ object deletion over any number of modules and Hook, ContextualHook and StateHook objects, a module call emits "
-              "exactly pre-fires ++ [forward] ++ post-fires where every hook fires exactly once in its configured position iff it "
-              "is alive, registered on that module and enabled for the module's mode (post: and forward succeeded or always_call), "
-              "never after deregistration / deletion, with no dangling handle and no dispatch error (axiom-free, lists/bools/nat); "
-              "clamp output lies in [min,max] and is the identity inside; the p-norm (p = 1, 2, inf, -inf, real p > 0) of every "
-              "normalised fibre equals |scale| when the norm is >= eps and zero vectors stay zero (over the reals).")
+              "/ object deletion over any number of modules and Hook, ContextualHook and StateHook objects, the complete event "
+              "sequence of a module call (which hooks run, pre or post position, dispatch order incl. prepend, which callable, "
+              "forward in between) equals the one computed by a handle-free abstract machine from the same history: every hook "
+              "fires exactly once in its configured position iff it is alive, registered on that module and enabled for the "
+              "module's mode (post: and forward succeeded or always_call), never after deregistration / deletion, with no "
+              "dangling handle, hook dictionaries of exactly the predicted size and no dispatch error (axiom-free, lists/bools/nat); "
+              "clamp output lies in [min,max] and is the identity inside; the p-norm (p = 1, 2, inf, -inf, real p > 0, natural p) "
+              "of every normalised fibre equals |scale| when the norm is >= eps, is |scale|*norm/eps below, and zero vectors stay "
+              "zero (over the reals).")
 LEVEL_NOTE = ("Trusted: Coq kernel; hand-written models C16/Hooks.v (state machine incl. the part of torch.nn.Module dispatch it "
-              "relies on) and C16/Norm.v (torch.clamp, F.normalize, vector_norm by their mathematical meaning) validated by "
-              "correspondence only (generator coverage); CPython weakref/GC modelled by its documented effect and exercised for "
-              "real. Real-number theorems use the stdlib Reals axioms; floating-point rounding is not proved. NOT covered: hooks "
-              "that mutate the hook lists while a call is dispatching, deletion of the hooked module, complex scale, p < 0, NaN "
-              "inputs. Finding candidate (modelled, refuted theorem, reported in evidence): Hook.register is not exception-safe.")
+              "relies on: hook dicts, prepend, always_call, RemovableHandle) and C16/Norm.v (torch.clamp, F.normalize, vector_norm "
+              "by their mathematical meaning) validated by correspondence only (generator coverage); CPython weakref / GC / "
+              "weakref.finalize modelled by their documented effect and exercised for real (del + gc.collect(), weakref probes). "
+              "Real-number theorems use the stdlib Reals axioms; floating-point rounding is not proved. Theorems about histories "
+              "assume no Hook is built with a pre-hook AND a post-hook whose kwargs torch rejects (safe_op); for that pattern "
+              "partial_register_dangling_refuted proves the violation (finding candidate: Hook.register is not exception-safe). "
+              "NOT covered: hooks that mutate the hook lists while a call is dispatching, exceptions raised by hook callables, "
+              "deletion of the hooked module, Hook.register(statehook, other_module), complex scale, p < 0, NaN inputs, "
+              "nn.Parameter targets (plain tensor attribute / buffer / nested attribute only).")
 HEADER = ("From Coq Require Import List ZArith Bool PrimFloat.\n"
           "From Inferno Require Import Base.Num Base.NumF C16.Hooks C16.Norm C16.HooksExec.\n"
           "Import ListNotations.\nOpen Scope float_scope.\n")
